@@ -276,5 +276,29 @@ def run(ctx):
 
 
 def replay(ctx, path):
-    print(open(path).read())
+    d = json.load(open(path)).get('replay') or {}
+    line = d.get('line', '')
+    if line.startswith('FM ') and ' O' not in line:
+        # stage (1): rebuild the forms from the model line, compile them with the real method and compare with the model again
+        toks = line.split(' ')
+        mode, ic, kind, forms = toks[1], toks[2] == '1', toks[3], []
+
+        def dec(t):
+            return ''.join(chr(int(x)) for x in t.split(',')) if t != '-' else ''
+        for t in toks[4:]:
+            parts = t.split('=')
+            if parts[0] in ('s', 'y'):
+                forms.append(make_form(parts[0], dec(parts[1]), 'n', mode)[0])
+            elif parts[0] in ('cs', 'cb'):
+                forms.append(make_form(parts[0], dec(parts[2]), parts[1], mode)[0])
+            else:
+                forms.append(make_form(parts[0], '', 'n', mode)[0])
+        p = X.Scripted([['d', 'zzz']], mode, X.FakeTime())
+        p.ignorecase = ic
+        real = real_compile(p, forms) if kind == 'r' else ('TypeError' if run_stream(mode, ic, forms, ['zzz'], 'expect_exact')[0][0] == 'TypeError' else 'accepted')
+        mo = common.run_model([line])[0]
+        agree = (mo == real) if kind == 'r' else ((mo == 'TypeError') == (real == 'TypeError'))
+        print('%s\n real : %s\n model: %s' % (line, real, mo))
+        return 0 if agree else 1
+    print(json.dumps(d, indent=1, default=repr)[:3000])
     return 1
